@@ -952,6 +952,32 @@ def form_in_domain(rng, p, q):
             return F
 
 
+def sparse_form(rng, p, q):
+    """Permutation conjugate of (hyperbolic planes) + (diagonal +-c), signature
+    (p, q); for a definite signature one dense block [[2,1],[1,2]] instead."""
+    n = p + q
+    B = np.zeros((n, n))
+    scales = (1.0, 0.5, 2.0)
+    h = int(rng.integers(1, min(p, q) + 1)) if min(p, q) >= 1 else 0
+    pos = 0
+    for _ in range(h):
+        c = scales[int(rng.integers(0, 3))] * (1 if rng.integers(0, 2) else -1)
+        B[pos, pos + 1] = B[pos + 1, pos] = c
+        pos += 2
+    signs = [1.0] * (p - h) + [-1.0] * (q - h)
+    if h == 0:
+        s = signs[0]
+        B[0, 0] = B[1, 1] = 2.0 * s
+        B[0, 1] = B[1, 0] = 1.0 * s
+        pos = 2
+        signs = signs[2:]
+    for s in signs:
+        B[pos, pos] = s * scales[int(rng.integers(0, 3))]
+        pos += 1
+    perm = rng.permutation(n)
+    return B[np.ix_(perm, perm)]
+
+
 def rows_in_class(rng, F, k, batch, cls):
     """k rows per unit with all Gram pivots >= 0.05 (bulk) or the smallest in
     [2e-3, 0.05] (stressed), by rejection."""
@@ -988,7 +1014,16 @@ def wl_frames(run, rng, idx):
     batch = BATCHES[(idx // len(SIGNATURES)) % len(BATCHES)]
     cls = "bulk" if (idx // (len(SIGNATURES) * len(BATCHES))) % 3 != 2 else "stressed"
     kind = int(rng.integers(0, 4))
-    if kind == 0:
+    if idx % 5 == 4 and n >= 2:
+        # sparse, exactly-zero-patterned but NOT diagonal forms: hyperbolic
+        # planes [[0,c],[c,0]] (the light-cone / anti-diagonal forms of the
+        # half-space model), one dense 2x2 block when the signature is definite,
+        # +-c on the rest, conjugated by a permutation.  A form with exactly n
+        # non-zero entries is not thereby diagonal (seeded change C18-r7-1: a
+        # "diagonal form" fast path of apply_bilinear keyed on count_nonzero).
+        F = sparse_form(rng, p, q)
+        fkind = "sparse"
+    elif kind == 0:
         F = np.diag([-1.0] * q + [1.0] * p)          # standard (Minkowski-like) form
         fkind = "diagonal"
     elif kind == 1:
